@@ -371,7 +371,7 @@ pub fn cmd_lock(kv: &HashMap<String, String>) -> i32 {
     let n: usize = kv.get("n").and_then(|s| s.parse().ok()).unwrap_or(24);
     let out_path = kv.get("out").cloned().expect("--out");
     let replay_dir = kv.get("replays").cloned().unwrap_or_else(|| format!("/verif/replays/{}", prop));
-    let _ = std::fs::remove_dir_all(&replay_dir);
+    // stale replays are removed by tools/check before the engines of a run start
     std::fs::create_dir_all(&replay_dir).ok();
     let t0 = std::time::Instant::now();
     let mut rng = Rng::new(seed);
